@@ -2,6 +2,8 @@ import Blue.Proofs.FileRefs
 import Blue.Proofs.SnapRefs
 import Blue.Proofs.Snap
 import Blue.Proofs.SkipLife
+import Blue.Proofs.SkipOwn
+import Blue.Proofs.ScanSpecDups
 import Blue.Proofs.TreeScan
 import Blue.Proofs.LevelOver
 import Blue.Proofs.ScanSpec
@@ -21,27 +23,43 @@ timestamp.  Three things keep it a snapshot:
   by path on first use, find them.  This needs the cursor to OWN its reference
   (/repo fix 7dd8413); the code as it was released the reference
   before returning the cursor: `reference_released_at_open_loses_files` (finding D-5).
-* **memory** (`Blue.SkipLife`, from C17): the skiplist nodes of a memtable are owned jointly by the
-  list handle and every iterator; nothing is released while a handle is held, everything when the
-  last one goes.
-* **contents** (`Blue.Snap`): the cursor stack is taken by its specification (`scan_spec`, C03): at
-  each call it shows the reference cursor over the versions of the captured components that are
-  live at the captured timestamp and in range.  The captured memtable keeps receiving writes until
-  it is rotated; `later_writes_are_screened` / `cursor_sees_snapshot_partial`: as long as those
+* **memory** (`Blue.SkipOwn`, shared with C17): the skiplist nodes of a memtable are owned jointly by
+  the list handle and every iterator.  A transition system with a reference count, a set of
+  released nodes and a ghost use-after-free flag; `no_use_after_free` is an invariant over every
+  run of handle events (iterator opened / cloned / dropped, list dropped, inserts, dereferences);
+  `use_after_free_as_found` is finding D-4 on the ownership as it was.  (`Blue.SkipLife`, whose
+  `live` the correspondence check compares with the allocation registry, *defines* the number of
+  live nodes; `life_refines` ties it to the transition system.  Its two theorems
+  `iterator_keeps_nodes_alive` / `nodes_released_with_last_holder` unfold that definition and are
+  kept as model facts.)
+* **contents** (`Blue.Snap`): the cursor stack is taken by its specification (`scan_spec_dups`, C03:
+  children may hold the same version twice, as inside the flush window): at each call it shows the
+  reference cursor over the versions of the captured components that are live at the captured
+  timestamp and in range.  The captured memtable keeps receiving writes until it is rotated
+  (`Tok.write`), and the captured IMMUTABLE memtable keeps receiving the remaining inserts of
+  writers that had picked it before the rotation, until the flush thread has passed the wait list
+  (`Tok.writeImm`); `later_writes_are_screened` / `cursor_sees_snapshot_partial`: as long as those
   carry sequence numbers above the read timestamp, every call shows what the reference cursor
-  over the list of open time shows, whatever else the store does in between.
+  over the list of open time shows.  Every OTHER store event (write into a newer memtable,
+  rollover, flush, version install by compaction / trivial move / garbage collection, trash
+  clean-up) is the no-op token `Tok.other` of this model: that they leave the captured components
+  alone is by construction here; what they do to the files is the `files` part, to the nodes the
+  `memory` part, and nothing links the three parts in one state machine.
 
 **Partial**, and why: (1) hypothesis (i) — no entry with sequence number ≤ the read timestamp is
-added to a captured memtable after the open — is a hypothesis here.  It was FALSE for the store as
-found (read timestamp = last ASSIGNED number, so a writer in flight at open time arrived later:
-finding D-6; `late_writer_leaks` shows the leak in this model).  Since the repair of D-6 (read
-timestamp = number of the last COMPLETED write) it is what `Blue.Props.C06.snapshot_stable` proves
-for every interleaving of writers, rollover and flush; the check also opens cursors while a writer
-thread runs and walks each twice; (2) the cursor stack is represented by its specification at every call; that the real
-merging cursor stays coherent when the memtable child grows between two calls is covered by the
-correspondence check only (every held cursor of every history is compared with this model);
-(3) no memory model: "never touches freed memory" is the ownership model plus the allocation
-registry and valgrind runs of the check, and atomics are taken as sequentially consistent. -/
+added to a captured memtable (mutable or immutable) after the open — is a hypothesis here.  It was
+FALSE for the store as found (read timestamp = last ASSIGNED number, so a writer in flight at
+open time arrived later: finding D-6; `late_writer_leaks` shows the leak in this model).  Since the
+repair of D-6 (read timestamp = number of the last COMPLETED write) it is the step fact
+`Blue.Props.C06.late_inserts_above_snapshot_ts` of the C06 model (every insert enabled while a
+snapshot exists is numbered above its timestamp), for every interleaving of writers, rollover and
+flush; the check also opens cursors while a writer thread runs and walks each twice; (2) the
+cursor stack is represented by its specification at every call; that the real merging cursor
+stays coherent when a memtable child grows between two calls is covered by the correspondence
+check only (every held cursor of every history is compared with this model); (3) no memory model:
+"never touches freed memory" is the ownership transition system plus the allocation registry and
+valgrind runs of the check, and atomics are taken as sequentially consistent; (4) "never panics"
+has no theorem: it is the oracle's observation on every call (`guarded`), nothing else. -/
 namespace Blue.Props.C07
 
 /-! ## files -/
@@ -83,6 +101,15 @@ example :
     let g2 := gstep g1 (.release 0)
     g1.2 0 = 1 ∧ g1.1.sst = [1, 2, 3] ∧ g1.1.trash = [] ∧ g2.2 0 = 0 ∧ g2.1.sst = [3] ∧ g2.1.trash = [2, 1] := by decide
 
+/-- a larger witness: two cursors on different versions that share file 2; each release moves to
+    `trash/` exactly the files no remaining holder needs -/
+example :
+    let g1 := grun (init [1, 2], fun _ => 0) [.snapshot, .install [2, 3], .snapshot, .install [3, 4]]
+    let g2 := gstep g1 (.release 0)
+    let g3 := gstep g2 (.release 1)
+    (g1.2 0, g1.2 1, g1.1.sst, g1.1.trash) = (1, 1, [1, 2, 3, 4], []) ∧
+    (g2.1.sst, g2.1.trash) = ([2, 3, 4], [1]) ∧ (g3.1.sst, g3.1.trash) = ([3, 4], [2, 1]) := by decide
+
 /-- **finding D-5 as a theorem about the code as it was**: `range_scan` released its reference
     before it returned the cursor (`S` at once followed by `R`); the next compaction moves the
     files of the cursor's version to `trash/` although the cursor has yet to open them -/
@@ -94,18 +121,88 @@ end files
 
 /-! ## memory -/
 section memory
+
+/-- **no use after free**: along every run of handle events from a fresh list — iterators opened
+    (a cursor's `MemTable::cursor`), cloned, dropped, the list dropped (flush: `imm := None`),
+    inserts, dereferences through iterators, in any order — no event dereferences nodes after a
+    node has been released.  `uaf` is set by the step function when a dereference happens while the
+    released set is non-empty; the released set is filled when a decrement of the reference count
+    reaches zero; the theorem is an invariant over `step` (`Blue.SkipOwn.inv_step`). -/
+theorem no_use_after_free (ops : List Blue.SkipLife.Op) {s : Blue.SkipOwn.St}
+    (hr : Blue.SkipOwn.run false {} ops = some s) : s.uaf = false :=
+  Blue.SkipOwn.no_use_after_free ops hr
+
+/-- … at the event: whenever a dereference through an iterator (or the search of an insert) is
+    enabled in a reachable state, no node has been released -/
+theorem deref_finds_all_nodes (ops : List Blue.SkipLife.Op) {s s' : Blue.SkipOwn.St}
+    (hr : Blue.SkipOwn.run false {} ops = some s) (op : Blue.SkipLife.Op)
+    (hop : (∃ j, op = .use j) ∨ op = .insert) (hs : Blue.SkipOwn.step false s op = some s') : s.freed = [] :=
+  Blue.SkipOwn.deref_finds_all_nodes ops hr op hop hs
+
+/-- in every reachable state nothing is released while a handle (list or iterator) exists, and
+    every node is once none does … -/
+theorem freed_iff_no_holder (ops : List Blue.SkipLife.Op) {s : Blue.SkipOwn.St}
+    (hr : Blue.SkipOwn.run false {} ops = some s) :
+    (Blue.SkipLife.holders (Blue.SkipOwn.abs s) ≠ 0 → s.freed = []) ∧
+    (Blue.SkipLife.holders (Blue.SkipOwn.abs s) = 0 → s.freed = List.range s.nodes) :=
+  Blue.SkipOwn.freed_iff_no_holder ops hr
+
+/-- … and the only event that releases nodes is the drop of the last holder -/
+theorem release_only_at_last_drop (ops : List Blue.SkipLife.Op) {s s' : Blue.SkipOwn.St}
+    (hr : Blue.SkipOwn.run false {} ops = some s) (op : Blue.SkipLife.Op)
+    (hs : Blue.SkipOwn.step false s op = some s') (hbefore : s.freed = []) (hafter : s'.freed ≠ []) :
+    (op = .dropList ∨ ∃ j, op = .dropIter j) ∧ Blue.SkipLife.holders (Blue.SkipOwn.abs s) = 1
+      ∧ Blue.SkipLife.holders (Blue.SkipOwn.abs s') = 0 :=
+  Blue.SkipOwn.release_only_at_last_drop ops hr op hs hbefore hafter
+
+/-- **bridge to the model the check replays**: every run of `Blue.SkipLife` (the model whose `live`
+    is compared with the allocation registry of the real crate after every op) is the handle part of
+    a run of the transition system, and the number `live` defines is the number of nodes that
+    system has not released -/
+theorem life_refines (ops : List Blue.SkipLife.Op) {t : Blue.SkipLife.St}
+    (hr : Blue.SkipOwn.lifeRun {} ops = some t) :
+    ∃ s, Blue.SkipOwn.run false {} ops = some s ∧ Blue.SkipOwn.abs s = t
+      ∧ Blue.SkipLife.live t = Blue.SkipOwn.liveNodes s ∧ s.uaf = false :=
+  Blue.SkipOwn.life_refines ops hr
+
+/-- **finding D-4 as a theorem about the ownership as it was**: the flush drops the memtable, its
+    `SkipList::drop` releases every node while a cursor's iterator still shares the head pointer; the
+    iterator's next dereference is a use after free.  Same schedule under the repaired ownership:
+    all nodes stay until the iterator goes. -/
+theorem use_after_free_as_found :
+    (Blue.SkipOwn.run true {} [.insert, .insert, .iter, .dropList, .use 0]).map (fun s => (s.uaf, s.freed))
+      = some (true, [0, 1, 2])
+    ∧ (Blue.SkipOwn.run false {} [.insert, .insert, .iter, .dropList, .use 0]).map (fun s => (s.uaf, s.freed, s.rc))
+      = some (false, [], 1)
+    ∧ (Blue.SkipOwn.run false {} [.insert, .insert, .iter, .dropList, .use 0, .dropIter 0]).map
+        (fun s => (s.uaf, s.freed, s.rc)) = some (false, [0, 1, 2], 0) :=
+  Blue.SkipOwn.use_after_free_as_found
+
+/-- non-vacuity of the run hypotheses: two cursors' iterators (one a clone) outlive the list; an
+    insert through the dropped list handle is refused; a dereference is enabled with nothing
+    released; the last drop releases all three nodes (head + 2) -/
+example :
+    Blue.SkipOwn.run false {} [.insert, .iter, .insert, .cloneIter 0, .dropList, .use 1, .dropIter 0, .insert, .use 1] = none
+    ∧ (Blue.SkipOwn.run false {} [.insert, .iter, .insert, .cloneIter 0, .dropList, .use 1, .dropIter 0, .use 1]).map
+        (fun s => (s.rc, s.freed, s.uaf)) = some (1, [], false)
+    ∧ (Blue.SkipOwn.run false {} [.insert, .iter, .insert, .cloneIter 0, .dropList, .use 1, .dropIter 0, .use 1,
+        .dropIter 1]).map (fun s => (s.rc, s.freed, s.uaf)) = some (0, [0, 1, 2], false) := by
+  decide
+
 open Blue.SkipLife
 
-/-- while a handle (the list or any iterator) is held, no node has been released -/
+/-- MODEL FACT (definitional): `Blue.SkipLife.live s` is *defined* as `if holders s = 0 then 0 else
+    s.nodes`; this unfolds the definition for an arbitrary state (no transition system, no
+    reachability).  The property content is `no_use_after_free` / `freed_iff_no_holder` above. -/
 theorem iterator_keeps_nodes_alive (s : St) (j : Nat) (h : held s j = true) : live s = s.nodes :=
   held_live s j h
 
-/-- nodes are released exactly when the last holder (list or iterator) is gone -/
+/-- MODEL FACT (definitional), as above -/
 theorem nodes_released_with_last_holder (s : St) : live s = 0 ↔ (holders s = 0 ∨ s.nodes = 0) :=
   released_iff s
 
-/-- non-vacuity: the store drops the memtable (flush) while a cursor's iterator is held; the
-    iterator is used; the nodes go with the iterator -/
+/-- the run the driver replays: the store drops the memtable (flush) while a cursor's iterator is
+    held; the iterator is used; the nodes go with the iterator -/
 example : ([Op.insert, .insert, .iter, .dropList, .use 0, .dropIter 0].foldl
       (fun (acc : Option St × List Nat) op => match acc.1.bind (step · op) with
         | some s => (some s, acc.2 ++ [live s]) | none => (none, acc.2)) (some {}, [])).2
@@ -117,7 +214,36 @@ end memory
 section contents
 open Blue.Spec Blue.Cursor Blue.Snap
 
-/-- the scan stack shows exactly the live versions in range (C03), at any read timestamp -/
+/-- **the specification the held-cursor model stands for** (C03, children with duplicates): the
+    scan stack over children that may hold the same `(key, timestamp)` several times — the window
+    between version install and `imm = None` of a flush, which the check exercises (cursors opened
+    inside a flush), is such a family — shows exactly the live versions in range, each once, at
+    any read timestamp, under every finite program of calls in both directions -/
+theorem scan_spec_dups {K : Type} [DecidableEq K] {klt : K → K → Bool} (st : StrictTotal klt)
+    (M : List (Ver K × Nat)) (k : Nat) (fam : FamilyW (vlt klt) M k)
+    (t : Nat) (tomb : Ver K → Bool) (sb eb : Bound K) (n : Nat) (hn : (M.map (·.1)).length + 2 ≤ n)
+    (C : Cur (Ver K)) (cs : List C.σ) (rs : List (Ref (Ver K)))
+    (hkids : (rs.map (·.xs)).Perm ((List.range k).map (childList M)))
+    (hbeh : cs.map (behA (SeekAdm klt) C) = rs.map (behA (SeekAdm klt) (RefCur (Ver K)))) :
+    BehEq (SeekAdm klt)
+      (BoundsC.cur (PruningC.cur (MergingC.cur C (vlt klt)) (pcfg t tomb) n) (bcfg klt sb eb) n)
+      (BoundsC.new (PruningC.cur (MergingC.cur C (vlt klt)) (pcfg t tomb) n) (bcfg klt sb eb)
+        (PruningC.new (MergingC.cur C (vlt klt)) (MergingC.new C (vlt klt) cs)))
+      (RefCur (Ver K))
+      ⟨((dedupAdj (M.map (·.1))).filter (isLive (dedupAdj (M.map (·.1))) t tomb)).filter (inRange klt sb eb), 0⟩ :=
+  Blue.Spec.scan_spec_dups st M k fam t tomb sb eb n hn C cs rs hkids hbeh
+
+/-- … and the list it names is the list the held-cursor model shows (`Blue.Snap.view`), for any
+    weakly sorted merge `L` of exactly the versions of the captured components -/
+theorem held_view_is_scan_spec_dups_list {K : Type} [DecidableEq K] {klt : K → K → Bool} (st : StrictTotal klt)
+    (tomb : Ver K → Bool) (sb eb : Bound K) (h : Held K) (L : List (Ver K)) (hw : SortedW klt L)
+    (hmem : ∀ e, e ∈ L ↔ e ∈ h.mem ++ h.rest) :
+    ((dedupAdj L).filter (isLive (dedupAdj L) h.ts tomb)).filter (inRange klt sb eb) = view klt tomb sb eb h :=
+  view_eq st tomb sb eb h (dedupAdj L) (sorted_dedupAdj st hw)
+    (fun e => by rw [mem_dedupAdj]; exact hmem e)
+
+/-- the duplicate-free special case (`Family`: pairwise distinct `(key, timestamp)` across the
+    children — FALSE inside the flush window; kept because C03 states it) -/
 theorem scan_spec {K : Type} [DecidableEq K] {klt : K → K → Bool} (st : StrictTotal klt)
     (M : List (Ver K × Nat)) (k : Nat) (fam : Family (vlt klt) M k)
     (t : Nat) (tomb : Ver K → Bool) (sb eb : Bound K) (n : Nat) (hn : (M.map (·.1)).length + 2 ≤ n)
@@ -159,12 +285,14 @@ theorem later_writes_are_screened {K : Type} [DecidableEq K] {klt : K → K → 
   live_filter_stable st M M' late hs hs' hmem t hlate tomb
 
 /-- **the held cursor shows the open-time snapshot** (model level): for every script of calls
-    interleaved with writes into the captured memtable and with anything else the store does
-    (rollover, flush, version installs, clean-up), if the writes carry sequence numbers above the
-    read timestamp, the calls return what the reference cursor over the list of OPEN TIME
-    returns.  Partial: see the module comment (hypothesis (i) comes from C06 `snapshot_stable` on
-    the repaired store and was false as found — D-6; the cursor stack is represented by
-    `scan_spec`; no memory model). -/
+    interleaved with later writes into the captured memtable (`Tok.write`) and into the captured
+    immutable memtable (`Tok.writeImm`: writers that picked it before the rotation), if the writes
+    carry sequence numbers above the read timestamp, the calls return what the reference cursor
+    over the list of OPEN TIME returns.  Every other store event (rollover, flush, version
+    installs, clean-up) is the token `Tok.other`, a no-op of this model: for those the statement
+    holds by construction.  Partial: see the module comment (hypothesis (i) is the C06 step fact
+    `late_inserts_above_snapshot_ts` on the repaired store and was false as found — D-6; the cursor
+    stack is represented by `scan_spec_dups`; no memory model). -/
 theorem cursor_sees_snapshot_partial {K : Type} [DecidableEq K] {klt : K → K → Bool} (st : StrictTotal klt)
     (tomb : Ver K → Bool) (sb eb : Bound K) (ts : Nat) (mem rest : List (Ver K)) (toks : List (Tok K))
     (hi : LateWritesAbove ts toks) :
@@ -179,6 +307,20 @@ example :
       [.op .first, .op .next, .op .next, .write [(1, 6)], .other, .write [(2, 7)], .op .first, .op .next, .op .next, .op .next]
     = [none, some (1, 4), some (3, 2), none, some (1, 4), some (3, 2), none] := by decide
 
+/-- non-vacuity with a late insert into the captured IMMUTABLE memtable: the scan is opened at 5
+    after the rotation, while write 6 (which had picked the old memtable) is still inserting; its
+    entry lands in the captured imm between the two walks, write 7 goes to the new memtable: both
+    walks show the same.  And where a late entry lands makes no difference to the list. -/
+example :
+    run Nat.blt (fun _ => false) .unbounded .unbounded ⟨5, [], [(1, 4), (3, 2)], 0⟩
+      [.op .first, .op .next, .op .next, .writeImm [(1, 6)], .write [(2, 7)], .other, .op .first, .op .next, .op .next]
+    = [none, some (1, 4), some (3, 2), none, some (1, 4), some (3, 2)] := by decide
+
+theorem late_entry_lands_anywhere {K : Type} [DecidableEq K] {klt : K → K → Bool} (st : StrictTotal klt)
+    (tomb : Ver K → Bool) (sb eb : Bound K) (h : Held K) (es : List (Ver K)) :
+    view klt tomb sb eb { h with rest := h.rest ++ es } = view klt tomb sb eb { h with mem := h.mem ++ es } :=
+  view_writeImm_eq_write st tomb sb eb h es
+
 /-- **finding D-6 at model level** (the store as found): hypothesis (i) is needed.  A writer that
     was assigned sequence number 5 before the scan was opened (read timestamp 5 = last assigned)
     and inserts afterwards appears in the held cursor: the second walk shows (1, 5) where the first
@@ -190,18 +332,22 @@ theorem late_writer_leaks :
 
 /-- **a scan never shows a write that completed after it was opened** (model level, scans opened
     while writes are in flight): the scan takes as its timestamp the number just below the oldest
-    write that has not left the wait list (`readTs`; `visible_seq_no` in the store).  Whatever
-    reaches the captured memtable afterwards — the remaining entries of the writes in flight, later
+    write that has not left the wait list (`readTs`).  Whatever reaches the captured memtable or the
+    captured immutable memtable afterwards — the remaining entries of the writes in flight, later
     writes — every call shows what the reference cursor over the list of OPEN TIME shows.  The
     hypothesis on the later entries is what the store guarantees by construction (an entry carries
-    the number of its write; numbers are handed out in increasing order); that `visible_seq_no` IS
-    `readTs` is C06 (`snapshot_stable`, in-order completion through the wait list) and is checked
-    here on every directed schedule (`snap open`: the model computes the timestamp from the numbers
-    in flight as the hooks saw them under the store's mutex). -/
+    the number of its write; numbers are handed out in increasing order).  The store's
+    `visible_seq_no` is NOT this number (a rotation consumes a sequence number that no write
+    carries: `Blue.Props.C06.numbers_differ_after_rotation`); the two select the same entries in
+    every reachable state of the C06 model (`Blue.Props.C06.view_visible_eq_view_readTs`: no entry
+    is numbered in between).  That bridge is a theorem about `Blue.KvsConc`, not about this model
+    (the two models share no state); here the timestamps are compared on every directed schedule
+    (`snap open`: the model computes the timestamp from the numbers in flight as the hooks saw
+    them under the store's mutex). -/
 theorem cursor_never_shows_later_completion {K : Type} [DecidableEq K] {klt : K → K → Bool} (st : StrictTotal klt)
     (tomb : Ver K → Bool) (sb eb : Bound K) (assigned : Nat) (inflight : List Nat)
     (hpos : ∀ s ∈ inflight, 0 < s) (mem rest : List (Ver K)) (toks : List (Tok K))
-    (hlate : ∀ es, Tok.write es ∈ toks → ∀ e ∈ es, e.2 ∈ inflight ∨ assigned < e.2) :
+    (hlate : ∀ es, Tok.write es ∈ toks ∨ Tok.writeImm es ∈ toks → ∀ e ∈ es, e.2 ∈ inflight ∨ assigned < e.2) :
     run klt tomb sb eb (openAt assigned inflight mem rest) toks
       = Ref.run ⟨view klt tomb sb eb (openAt assigned inflight mem rest), 0⟩ (opsOf toks) :=
   run_openAt st tomb sb eb assigned inflight hpos mem rest toks hlate
@@ -241,9 +387,18 @@ end Blue.Props.C07
 #print axioms Blue.Props.C07.cursor_files_present
 #print axioms Blue.Props.C07.refcount_run
 #print axioms Blue.Props.C07.reference_released_at_open_loses_files
+#print axioms Blue.Props.C07.no_use_after_free
+#print axioms Blue.Props.C07.deref_finds_all_nodes
+#print axioms Blue.Props.C07.freed_iff_no_holder
+#print axioms Blue.Props.C07.release_only_at_last_drop
+#print axioms Blue.Props.C07.life_refines
+#print axioms Blue.Props.C07.use_after_free_as_found
 #print axioms Blue.Props.C07.iterator_keeps_nodes_alive
 #print axioms Blue.Props.C07.nodes_released_with_last_holder
+#print axioms Blue.Props.C07.scan_spec_dups
+#print axioms Blue.Props.C07.held_view_is_scan_spec_dups_list
 #print axioms Blue.Props.C07.scan_spec
+#print axioms Blue.Props.C07.late_entry_lands_anywhere
 #print axioms Blue.Props.C07.scan_depends_only_on_versions
 #print axioms Blue.Props.C07.held_view_is_scan_spec_list
 #print axioms Blue.Props.C07.later_writes_are_screened
